@@ -1,6 +1,7 @@
 import Juniper.Model.Stream
 import Juniper.Spec.Seq
 import Juniper.Proofs.Skeleton
+import Juniper.Proofs.StreamGuards
 /-!
 # Denotation of stream machines under faults (framework for C07/C08)
 
